@@ -370,9 +370,36 @@ def _close(a, b, scale=1.0):
     return bool(np.all(np.abs(a[m] - b[m]) <= TOL * scale + TOL * np.maximum(np.abs(a[m]), np.abs(b[m]))))
 
 
-def _angle_close(a, b):
-    d = np.angle(np.exp(1j * (np.asarray(a) - np.asarray(b))))
-    return bool(np.all(np.abs(d) <= 1e-6))
+def _phase_bad(got, want):
+    """Relative phase `got` against the dense complex coherency `want`, as VALUES in the principal range:
+    every returned phase must lie in [-pi, pi]; where the dense spectrum is not ~0 and its phase is away
+    from the +-pi cut the values must agree; only at the cut (DC / Nyquist / real negative cross-spectra, where
+    rounding decides between +pi and -pi) the comparison is on the circle.  Returns None or a description
+    naming the first offending bin."""
+    got = np.asarray(got, dtype=float).ravel()
+    want = np.asarray(want).ravel()
+    if got.shape != want.shape:
+        return "shapes %s vs %s" % (got.shape, want.shape)
+    fin = np.isfinite(want)
+    if np.any(~np.isfinite(got) & fin):
+        k = int(np.argmax(~np.isfinite(got) & fin))
+        return "bin %d: phase %s is not finite (dense %.6g)" % (k, got[k], float(np.angle(want[k])))
+    out = np.isfinite(got) & (np.abs(got) > np.pi + 1e-9)
+    if np.any(out):
+        k = int(np.argmax(out))
+        return "bin %d: phase %.9g lies outside [-pi, pi] (dense %.9g)" % (k, got[k], float(np.angle(want[k])) if fin[k] else float("nan"))
+    m = fin & np.isfinite(got)
+    m[m] &= np.abs(want[m]) > 1e-6
+    ph = np.zeros(got.shape)
+    ph[m] = np.angle(want[m])
+    d = got - ph
+    cut = np.abs(ph) > np.pi - 1e-6
+    d = np.where(cut, np.angle(np.exp(1j * d)), d)
+    bad = m & (np.abs(d) > 1e-6)
+    if np.any(bad):
+        k = int(np.argmax(bad))
+        return "bin %d: phase %.9g, dense %.9g (difference %.6g)" % (k, got[k], ph[k], got[k] - ph[k])
+    return None
 
 
 def _worst(a, b):
@@ -418,9 +445,10 @@ def oracle_cache(cfg, o):
                 fails.append(Fail("C09/SparseCoherenceAnalyzer.coherence", "coherence of pair (%d,%d) differs from dense: %s"
                                   % (i, j, _worst(o.an["coherence"][i, j], np.abs(want) ** 2))))
                 break
-            m = np.abs(want) > 1e-6
-            if not _angle_close(o.an["relative_phases"][i, j][m], np.angle(want)[m]):
-                fails.append(Fail("C09/SparseCoherenceAnalyzer.relative_phases", "relative phase of pair (%d,%d) differs from dense" % (i, j)))
+            pb = _phase_bad(o.an["relative_phases"][i, j], want)
+            if pb:
+                fails.append(Fail("C09/SparseCoherenceAnalyzer.relative_phases", "relative phase of pair (%d,%d) differs "
+                                  "from dense, band %s" % (i, j, pb), str(o.an["relative_phases"][i, j]), str(np.angle(want))))
                 break
     for k in sorted(o.psd):
         want = o.rpsd[k][lbi:ubi]
@@ -432,12 +460,12 @@ def oracle_cache(cfg, o):
             break
     for (i, j) in ij:
         want = o.rcoh[(i, j)][lbi:ubi]
-        m = np.abs(want) > 1e-6
         got = np.asarray(o.rp)[i, j].real
-        if not _angle_close(got[m], np.angle(want)[m]):
+        pb = _phase_bad(got, want)
+        if pb:
             key = "C09/cache_to_relative_phase/multi-window" if o.nw > 1 else "C09/cache_to_relative_phase/single-window"
             fails.append(Fail(key, "cache_to_relative_phase of pair (%d,%d) differs from the dense phase (angle of the "
-                              "averaged cross-spectrum)" % (i, j), str(got), str(np.angle(want))))
+                              "averaged cross-spectrum), band %s" % (i, j, pb), str(got), str(np.angle(want))))
             break
     return fails
 
@@ -462,9 +490,10 @@ def oracle_seed(cfg, o):
     elif not _close(o.coherence.reshape(want.shape), np.abs(want) ** 2):
         fails.append(Fail("C09/SeedCoherenceAnalyzer.coherence", "coherence differs from dense"))
     else:
-        m = np.abs(want) > 1e-6
-        if not _angle_close(o.relative_phases.reshape(want.shape)[m], np.angle(want)[m]):
-            fails.append(Fail("C09/SeedCoherenceAnalyzer.relative_phases", "relative phases differ from dense"))
+        pb = _phase_bad(o.relative_phases.reshape(want.shape), want)
+        if pb:
+            fails.append(Fail("C09/SeedCoherenceAnalyzer.relative_phases", "relative phases differ from dense, flat %s" % pb,
+                              str(o.relative_phases), str(np.angle(want))))
     return fails
 
 
